@@ -283,6 +283,27 @@ class Report:
 def run_property(mod, tier, seed):
   rep = Report(mod, tier, seed)
   targets = mod.proof_targets(tier) if hasattr(mod, 'proof_targets') else []
+  only = os.environ.get('MMVERIF_ONLY_FUNC')
+  if only:
+    # self-test mode (mutation analysis): prove only one function
+    omod, oq = only.split(':', 1)
+    from mmverif import prove as _pv
+    kept = []
+    for modname, quals, _ in targets:
+      if modname != omod:
+        continue
+      if quals is None:
+        side = _pv.load_sidecar(modname)
+        quals = {'tbrmmscore': getattr(side, 'SCORE_FUNCTIONS', None),
+                 'tbrmmdesign': getattr(side, 'DESIGN_FUNCTIONS', None),
+                 'common_classes': getattr(side, 'CC_FUNCTIONS', None),
+                 'tbr_iroas': getattr(side, 'IROAS_FUNCTIONS', None)}.get(
+                     modname) or side.FUNCTIONS
+      hit = [q for q in quals if q == oq or q.startswith(oq + '.setter')
+             or q.split('#')[0] == oq]
+      if hit:
+        kept.append((modname, hit, False))
+    targets = kept
   if targets:
     from mmverif import prove
     from mmverif.engine import backend
@@ -292,13 +313,28 @@ def run_property(mod, tier, seed):
         use_cvc5='fallback' if tier == 'quick' else 'always')
     # second chance with a longer budget for the few undecided ones, so that
     # a loaded machine does not flip a verdict
-    und = [(o, r) for o, r in rep.proof.obligations
-           if r['verdict'] == 'undecided']
-    if 0 < len(und) <= 48:
+    # (also for "sat-candidate": z3 gave up on the quantified hypotheses and
+    # only the quantifier-free part has a model - with more time the
+    # obligation may well be provable)
+    def soft(r):
+      return r['verdict'] == 'undecided' or (
+          r['verdict'] == 'failed' and
+          all(x.get('result') != 'sat' for x in r['runs']))
+    und = [(o, r) for o, r in rep.proof.obligations if soft(r)]
+    # at most one representative per clause when many paths fail the same one
+    if len(und) > 48:
+      seen, few = set(), []
+      for o, r in und:
+        k = (o.func, o.kind, o.label)
+        if k not in seen:
+          seen.add(k)
+          few.append((o, r))
+      und = few[:48] if len(few) <= 48 else []
+    if und:
       out = backend.discharge([(o.name, o.smt2) for o, r in und],
                               timeout_ms=tmo * 4, use_cvc5='no')
       for i, (o, r) in enumerate(rep.proof.obligations):
-        if r['verdict'] == 'undecided' and o.name in out:
+        if soft(r) and o.name in out:
           nr = out[o.name]
           nr['runs'] = r['runs'] + nr['runs']
           nr['verdict'] = backend.verdict(nr['runs'])
